@@ -29,6 +29,52 @@ def glibc_obs(t):
     return {"off": tm.tm_gmtoff, "des": B(tm.tm_zone or ""), "dst": 1 if tm.tm_isdst > 0 else 0}
 
 
+def ref_transitions(obs_fn, t0, t1, step=86400 * 5):
+    """instants in [t0, t1] at which a reference's answer changes (coarse scan + bisection); generator-side, to aim probes"""
+    out = []
+    key = lambda t: (lambda o: None if o is None else (o["off"], bytes(o["des"])))(obs_fn(t))
+    a, ka = t0, key(t0)
+    t = t0
+    while t < t1:
+        b = min(t + step, t1)
+        kb = key(b)
+        if ka is not None and kb is not None and kb != ka:
+            lo, hi = t, b
+            while hi - lo > 1:
+                mid = (lo + hi) // 2
+                if key(mid) == ka:
+                    lo = mid
+                else:
+                    hi = mid
+            out.append(hi)
+        t, ka = b, kb
+    return out
+
+
+def mk_events(rng, L, offs, impls, findn=False):
+    """the crate's search for local time L and the instants each reference implies for it (preimage of its forward function)"""
+    f = gens.fields_of_local(L, 0)
+    if findn:
+        fn = dict(f); fn["n"] = rng.randint(0, 3)
+        yield {"op": "findn", "a": fn}
+    yield {"op": "find", "a": f}
+    for impl, obs_fn in impls:
+        implied = set()
+        ok = True
+        for oo in offs:
+            cand = L - oo
+            obs = obs_fn(cand)
+            if obs is None:
+                ok = False
+                break
+            if cand + obs["off"] == L:
+                implied.add(cand)
+        if ok:
+            ff = dict(f)
+            ff.update({"impl": impl, "set": [W(x) for x in sorted(implied)]})
+            yield {"op": "refmk", "a": ff}
+
+
 def file_offsets(data):
     """distinct UT offsets of the block a reader must use (to enumerate mktime candidates for the references)"""
     def hdr(p):
@@ -114,6 +160,22 @@ def gen_file_session(rng, rel, max_tr=40, nrandom=15, mk=True):
                         ff = dict(f)
                         ff.update({"impl": impl, "set": [W(x) for x in sorted(implied)]})
                         yield {"op": "refmk", "a": ff}
+        # transitions generated by the footer's rule, beyond the last recorded one: the exact boundary seconds, searched through
+        # the allocating and the buffer-based search (one reused buffer), against both references
+        y0 = rng.choice([2038, 2040, 2041, 2099, 2100, 2399])
+        t0 = gens.days_from_civil(y0, 1, 1) * 86400
+        if (not times or t0 > times[-1]) and zi is not None:
+            impls = (("glibc", glibc_obs), ("zoneinfo", lambda c: zoneinfo_obs(zi, c)))
+            for T in ref_transitions(lambda c: zoneinfo_obs(zi, c), t0, t0 + 366 * 86400)[:2]:
+                for d in (-1, 0, 1):
+                    yield {"op": "lookup", "a": {"u": W(T + d), "via": "owned"}}
+                    yield {"op": "ref", "a": {"impl": "glibc", "scale": "utc", "t": W(T + d), "obs": glibc_obs(T + d)}}
+                a, b = min(offs), max(offs)
+                near = {o for o in offs if any(o == zoneinfo_obs(zi, T + dd)["off"] for dd in (-1, 0))}
+                for o in sorted(near):
+                    for d in (-1, 0, 1):
+                        yield from mk_events(rng, T + o + d, offs, impls, findn=True)
+                yield from mk_events(rng, T + 86400 * 30 + 43200, offs, impls, findn=True)      # an ordinary time: fewer results in the same buffer
 
 
 POSIX_STRINGS = ["EST5EDT,M3.2.0,M11.1.0", "CET-1CEST,M3.5.0,M10.5.0/3", "AEST-10AEDT,M10.1.0,M4.1.0/3", "NZST-12NZDT,M9.5.0,M4.1.0/3", "UTC0", "<-03>3", "<+0530>-5:30",
@@ -130,6 +192,24 @@ def gen_string_session(rng, s):
         g = glibc_obs(t)
         if g is not None:
             yield {"op": "ref", "a": {"impl": "glibc", "scale": "utc", "t": W(t), "obs": g}}
+    # the rule's own transitions in one year, to the second: lookups and searches (both forms) against glibc
+    y0 = rng.randint(1971, 2400)
+    t0 = gens.days_from_civil(y0, 1, 1) * 86400
+    # glibc evaluates a rule for the calendar year of the instant only: where a start or end spills over New Year (all-year DST
+    # written as J1/0,J365/24, times beyond 24 h late in December) it reports changes AT New Year that POSIX does not prescribe.
+    # Its changes within 8 days of a New Year are therefore not used to aim exact-second comparisons (random instants still are).
+    nys = [gens.days_from_civil(y0 + k, 1, 1) * 86400 for k in (0, 1)]
+    trs = [T for T in ref_transitions(glibc_obs, t0, t0 + 366 * 86400) if all(abs(T - ny) > 8 * 86400 for ny in nys)][:2]
+    all_trs = ref_transitions(glibc_obs, t0 - 366 * 86400, t0 + 2 * 366 * 86400, step=86400)
+    offs = sorted({glibc_obs(t0 + k * 86400 * 30)["off"] for k in range(13)} | {glibc_obs(T + d)["off"] for T in all_trs for d in (-1, 0)})
+    for T in trs:
+        for d in (-1, 0, 1):
+            yield {"op": "lookup", "a": {"u": W(T + d), "via": "owned"}}
+            yield {"op": "ref", "a": {"impl": "glibc", "scale": "utc", "t": W(T + d), "obs": glibc_obs(T + d)}}
+        for o in offs:
+            for d in (-1, 0, 1):
+                yield from mk_events(rng, T + o + d, offs, (("glibc", glibc_obs),), findn=True)
+    yield from mk_events(rng, t0 + 86400 * 200 + 43200, offs, (("glibc", glibc_obs),), findn=True)
 
 
 def rand_posix_string(rng):
